@@ -266,6 +266,12 @@ def check_reply(case):
     if res is not sat:
         raise Failure("reply-verdict-wrong|" + mode, observed=repr(res), expected=sat)
     if not sat:
+        # an unsat reply decides nothing: no stale value from an earlier solve may survive on the
+        # variables the reply is about (all variables in answer-finder mode, the keys in deduction mode)
+        for k, v in enumerate(solver.variables):
+            if (mode == "find" or solver.is_answer_key[k]) and v.sol is not None:
+                raise Failure("stale-sol-after-unsat-reply|" + mode, observed=dict(var=names[v.id], sol=repr(v.sol)),
+                              expected=None)
         return
     order_note = "" if rep.get("order", "java") == "java" else "|permuted-lines"
     if mode == "find":
